@@ -21,6 +21,7 @@ CONSTANTS
   PairFirst = {1}
   TypedFlush = {TRUE}
   Interleave = FALSE
+  MaxAbandon = 0
   Bug = {"EnsureStopsEarly"}
 INVARIANTS AcceptedNeverRejected
 CHECK_DEADLOCK FALSE
